@@ -201,6 +201,38 @@ def _generator_cm(fn) -> ast.Try | None:
     return t
 
 
+def _plain_generator_cm(fn):
+    """(statements before the yield, statements after it) of a @contextmanager function of the shape
+    `<pre>; yield; <post>` with no try around the yield: an exception of the with-body is thrown at the yield and leaves
+    the generator at once, so `with cm(a): BODY` is `<pre>; BODY; <post>` with the parameters replaced by the arguments."""
+    if not any((isinstance(d, ast.Name) and d.id in ("contextmanager", "asynccontextmanager")) or (isinstance(d, ast.Attribute) and d.attr in ("contextmanager", "asynccontextmanager")) for d in fn.decorator_list):
+        return None
+    body = _strip_doc(fn.body)
+    ys = [i for i, b in enumerate(body) if isinstance(b, ast.Expr) and isinstance(b.value, ast.Yield)]
+    if len(ys) != 1:
+        return None
+    pre, post = body[: ys[0]], body[ys[0] + 1 :]
+    yv = body[ys[0]].value.value
+    if yv is not None and any(isinstance(n, (ast.Yield, ast.YieldFrom, ast.Lambda, ast.Await)) for n in ast.walk(yv)):
+        return None
+    for b in pre + post:
+        if any(isinstance(n, (ast.Yield, ast.YieldFrom, ast.Return, ast.FunctionDef, ast.AsyncFunctionDef, ast.Lambda, ast.Global, ast.Nonlocal)) for n in ast.walk(b)):
+            return None
+    # parameters are not re-bound
+    params = {x.arg for x in fn.args.posonlyargs + fn.args.args + fn.args.kwonlyargs}
+    if any(isinstance(n, ast.Name) and n.id in params and isinstance(n.ctx, (ast.Store, ast.Del)) for b in pre + post for n in ast.walk(b)):
+        return None
+    return pre, post, yv
+
+
+def _pure_arg(e: ast.expr) -> bool:
+    """A name, a constant, or an attribute chain on a name: evaluating it again later gives the same object as long as
+    nothing re-binds it (the buffer attributes, locals of the caller)."""
+    while isinstance(e, ast.Attribute):
+        e = e.value
+    return isinstance(e, (ast.Name, ast.Constant))
+
+
 def _class_cm(cls: ast.ClassDef):
     """(exit function, exception types expr, exc-value parameter name, statements) for a class whose __enter__ does
     nothing and whose __exit__ is  `if <exception is not of T>: return <falsy>` ; <statements> ; `return <falsy>` | raise."""
@@ -796,6 +828,7 @@ class _GeneralCMDesugar(ast.NodeTransformer):
 class _CMDesugar(ast.NodeTransformer):
     def __init__(self, tree: ast.Module) -> None:
         self.gens = {}
+        self.plain = {}
         self.classes = {}
         self.mgens = {}  # generator-based managers that are methods: name -> (function, try) when the name is unique
         for n in tree.body:
@@ -803,6 +836,8 @@ class _CMDesugar(ast.NodeTransformer):
                 t = _generator_cm(n)
                 if t is not None:
                     self.gens[n.name] = (n, t)
+                elif _plain_generator_cm(n) is not None:
+                    self.plain[n.name] = (n, _plain_generator_cm(n))
             elif isinstance(n, ast.ClassDef):
                 c = _class_cm(n)
                 if c is not None:
@@ -817,10 +852,15 @@ class _CMDesugar(ast.NodeTransformer):
 
     def _rewrite(self, node):
         self.generic_visit(node)
+        import copy
+
+        if len(node.items) == 1 and isinstance(node.items[0].optional_vars, ast.Name) and isinstance(node.items[0].context_expr, ast.Call) and isinstance(node.items[0].context_expr.func, ast.Name) and node.items[0].context_expr.func.id in self.plain:
+            got = self._plain(node, copy)
+            if got is not None:
+                return got
         if len(node.items) != 1 or node.items[0].optional_vars is not None:
             return node
         call = node.items[0].context_expr
-        import copy
 
         if isinstance(call, ast.Call) and isinstance(call.func, ast.Attribute) and isinstance(call.func.value, ast.Name) and call.func.value.id in ("self", "cls") and call.func.attr in self.mgens:
             # `with self.manager(args):` - a generator-based manager that is a method of the class
@@ -864,6 +904,9 @@ class _CMDesugar(ast.NodeTransformer):
             new = ast.Try(body=node.body, handlers=handlers, orelse=[], finalbody=final)
             self.count += 1
             return _mark(new, node)
+        if call.func.id in self.plain:
+            got = self._plain(node, copy)
+            return got if got is not None else node
         if call.func.id in self.classes:
             ext, init, types, selfn, tname, vname, rest, stored = self.classes[call.func.id]
             if isinstance(ext, ast.AsyncFunctionDef) != isinstance(node, ast.AsyncWith):
@@ -883,6 +926,39 @@ class _CMDesugar(ast.NodeTransformer):
             new = ast.Try(body=node.body, handlers=[h], orelse=[], finalbody=[])
             return _mark(new, node)
         return node
+
+    def _plain(self, node, copy):
+        call = node.items[0].context_expr
+        var = node.items[0].optional_vars
+        fn, (pre, post, yv) = self.plain[call.func.id]
+        if isinstance(node, ast.AsyncWith) != isinstance(fn, ast.AsyncFunctionDef):
+            return None
+        if var is not None and yv is None:
+            return None
+        amap = _bind(fn, call)
+        if amap is None or not all(_pure_arg(a) for a in amap.values()):
+            return None
+        # the arguments must not be re-bound by the with-body (they are read again after it)
+        arg_names = {n.id for a in amap.values() for n in ast.walk(a) if isinstance(n, ast.Name)}
+        if any(isinstance(n, ast.Name) and n.id in arg_names and isinstance(n.ctx, (ast.Store, ast.Del)) for b in node.body for n in ast.walk(b)):
+            return None
+        self.count += 1
+        own = {n.id for b in pre + post for n in ast.walk(b) if isinstance(n, ast.Name) and isinstance(n.ctx, ast.Store)}
+        own |= {n.id for g_ in ([yv] if yv is not None else []) for n in ast.walk(g_) if isinstance(n, ast.Name) and isinstance(n.ctx, ast.Store)}
+        ren = {nm: f"__cm{self.count}p_{nm}" for nm in own}
+        sub = _Subst(amap)
+
+        def tr(b):
+            return sub.visit(_Rename(ren).visit(copy.deepcopy(b)))
+
+        mid = []
+        if yv is not None:
+            v2 = tr(yv)
+            mid = [ast.copy_location(ast.Assign(targets=[copy.deepcopy(var)], value=v2) if var is not None else ast.Expr(value=v2), node)]
+        out = [tr(b) for b in pre] + mid + list(node.body) + [tr(b) for b in post]
+        for b in out:
+            ast.fix_missing_locations(b)
+        return out
 
     visit_With = _rewrite
     visit_AsyncWith = _rewrite
@@ -1360,7 +1436,7 @@ def desugar(tree: ast.Module) -> ast.Module:
             tree = sc.visit(tree)
             changed = changed or sc.count > 0
         cm = _CMDesugar(tree)
-        if cm.gens or cm.classes or cm.mgens:
+        if cm.gens or cm.classes or cm.mgens or cm.plain:
             tree = cm.visit(tree)
             changed = changed or cm.count > 0
         gm = _GeneralCMDesugar(tree)
